@@ -1020,6 +1020,17 @@ def rule_smart_flags(ctx):
                     good = nv is None or (strip_casts(nv)[0] == "const" and not strip_casts(nv)[1])
                 elif nv is not None:
                     good = has_call(nv, ("chars::normalize::normalize", "chars::normalize"), is_char) and any(x[0] == "bin" and x[1] == "Eq" for x in walk(nv))
+                    if good:
+                        # ... and the character that is tested is the character that is STORED (after case folding): the
+                        # flag says whether the stored atom contains a normalizable character
+                        nargs = [strip_casts(x[2][0]) for x in walk(nv) if x[0] in ("call", "call_mut") and any(str(x[1]).endswith(sfx) for sfx in ("chars::normalize::normalize", "chars::normalize")) and x[2]]
+                        stv = [strip_casts(v) for v in st_vals]
+                        if nargs and stv and not any(a_ == v_ for a_ in nargs for v_ in stv):
+                            good = False
+                            problems.append(("smart-normalize-operand", "under Normalization::Smart the flag is computed from normalize(%s) but the character stored in the atom is %s: the "
+                                             "flag no longer says whether the STORED atom has a normalizable character (case folding can move a character into or out of the table)"
+                                             % (show(nargs[0])[:50], show(stv[0])[:50])))
+                            continue
                 if not good:
                     problems.append(("smart-normalize", "under Normalization::Smart a non-ASCII character is stored without `normalize &&= normalize(c) == c` (new flag value: %s)" % (show(nv)[:60] if nv is not None else "unchanged")))
         if problems:
